@@ -193,13 +193,33 @@ pub fn rfc_dst(len: usize, kind: usize) -> Vec<u8> {
     // the RFC test tag, cut or padded to the requested length
     let tag = b"QUUX-V01-CS02-with-BLS12381G1_XMD:SHA-256_SSWU_RO_";
     let mut v: Vec<u8> = tag.iter().cycle().take(len).cloned().collect();
-    if kind == 1 {
-        for b in v.iter_mut() {
-            *b = 0xff;
+    match kind {
+        1 => {
+            for b in v.iter_mut() {
+                *b = 0xff;
+            }
         }
+        // a zero byte at the end / at the start (a tag is a byte string, not a C string), all zero
+        2 => {
+            if let Some(l) = v.last_mut() {
+                *l = 0;
+            }
+        }
+        3 => {
+            if let Some(f) = v.first_mut() {
+                *f = 0;
+            }
+        }
+        4 => {
+            for b in v.iter_mut() {
+                *b = 0;
+            }
+        }
+        _ => {}
     }
     v
 }
+pub const DST_KINDS: u64 = 5;
 
 pub fn run(ctx: &Ctx) -> (&'static str, &'static str) {
     let quick = ctx.quick();
@@ -212,7 +232,7 @@ pub fn run(ctx: &Ctx) -> (&'static str, &'static str) {
     };
     let inj = ctx.injecting("C13");
     let nkinds = if quick { 2 } else { 3 };
-    let rad = [lens.len() as u64, dl.len() as u64, 2, ml.len() as u64, nkinds as u64, 4];
+    let rad = [lens.len() as u64, dl.len() as u64, DST_KINDS, ml.len() as u64, nkinds as u64, 4];
     ctx.sweep(
         "expand_message",
         crate::infra::space(&rad),
